@@ -278,7 +278,7 @@ def _probe_every_step_hang(rep, cfg):
         )
 
 
-def replay(rep_obj) -> int:
+def replay_exact(rep_obj) -> int:
     """Re-run one recorded divergence against the current tree."""
     r = rep_obj["replay"]
     if not r or "behaviour" not in r:
